@@ -176,3 +176,80 @@ def independent_ecies(vc):
         if o.returned or not isinstance(o.exc, ValueError):
             bad.append((bx % 1000, by % 1000, repr(o.exc) if not o.returned else "accepted"))
     vc.prove("off-curve/out-of-range/zero-points-refused", not bad, repr(bad))
+
+
+# ---------------------------------------------------------------------------------------
+# the DH secret handed to SHA-256 is the shared x-coordinate as EXACTLY 32 big-endian bytes (leading zeros kept)
+
+LEADING_ZERO_VECTORS = [   # (recipient d, ephemeral k) with x(d*k*G) < 2^248
+    (0x75D5A7356650BA15BF1A2790039E35C9D6220BEB93B4E019F787BC26E4936471,
+     0x4D1482870E581CF2DC53DF4D0EC9931C8CC56BEDBCFC251804F2B80DCFAF7A2A),
+    (0x75D5A7356650BA15BF1A2790039E35C9D6220BEB93B4E019F787BC26E4936471,
+     0x0BD56A75EAC0160A4D4C6768A1A017B8B8F35E781DFE0C988268EAD2D90F848D),
+]
+
+
+def fam_dh(seed, tier):
+    import random
+    rnd = random.Random(seed)
+    for d, k in LEADING_ZERO_VECTORS:
+        yield dict(d=d, k=k, x=0)
+    for _ in range(2 if tier == "quick" else 20):
+        yield dict(d=rnd.randrange(1, P256_N), k=rnd.randrange(1, P256_N), x=0)
+
+
+@proof("C09/compute_dh_secret=x-as-32-bytes", functions=[("register_crypto_plugin", "PrivateEccKeyProxy.compute_dh_secret"),
+                                                         ("register_crypto_plugin.ecdsa.ecdh", "ECDH.generate_sharedsecret_bytes"),
+                                                         ("register_crypto_plugin.ecdsa.util", "number_to_string"),
+                                                         ("register_crypto_plugin.ecdsa.util", "orderlen")],
+       family=fam_dh)
+def dh_secret_width(vc):
+    """ECDH.generate_sharedsecret (the x-coordinate of d*Q, C17) is stubbed by a symbolic 0 <= x < p in symbolic mode;
+    key loading is recorded.  Post: the result is x.to_bytes(32, 'big') for EVERY x, including x < 2^248."""
+    R = vc.module("register_crypto_plugin")
+    C = vc.module("register_crypto_plugin.ecdsa.curves")
+    if not vc.symbolic:
+        K = vc.module("register_crypto_plugin.ecdsa.keys")
+        d, k = vc._get("d"), vc._get("k")
+        vc._get("x")
+        priv = R.PrivateEccKeyProxy(K.SigningKey.from_secret_exponent(d, C.NIST256p))
+        pub = R.PrivateEccKeyProxy(K.SigningKey.from_secret_exponent(k, C.NIST256p)).public_key
+        S = EM.mul(d, EM.mul(k, P256_G, P256_A, P256_P), P256_A, P256_P)
+        out = priv.compute_dh_secret(pub)
+        vc.prove("dh-secret=x.to_bytes(32)", out == S[0].to_bytes(32, "big"), out.hex())
+        return
+    ECDHreal = R.ECDH
+    x = vc.int("x", 0, P256_P - 1)
+    log = []
+
+    class Key:
+        curve = C.NIST256p
+
+    class ECDHc(ECDHreal):
+        def load_private_key_der(self, der):
+            log.append(("priv", der))
+            self.private_key = Key()
+
+        def load_received_public_key_der(self, der):
+            log.append(("pub", der))
+            self.public_key = Key()
+
+        def generate_sharedsecret(self):
+            log.append(("dh", self.curve))
+            return x
+
+    vc.patch(R, "ECDH", ECDHc)
+
+    class SK:
+        def to_der(self):
+            return b"PRIVATE-DER"
+
+    class PK:
+        def to_der_fmt(self):
+            return b"PUBLIC-DER"
+
+    out = R.PrivateEccKeyProxy(SK()).compute_dh_secret(PK())
+    vc.prove("dh-secret=x.to_bytes(32)", out == x.to_bytes(32, "big"))
+    vc.prove("keys-loaded=own-private+peer-public-on-P-256",
+             log == [("priv", b"PRIVATE-DER"), ("pub", b"PUBLIC-DER"), ("dh", C.NIST256p)])
+    vc.cover("dh")
